@@ -3,6 +3,10 @@ COMMON_NOTE = ("Trusted: Lean 4.33 kernel (axioms propext, Classical.choice, Quo
                "the gofacts translator, the mharness/mdriver correspondence harness. The hand-written model is tied to the code "
                "only by the correspondence run; what is modelled vs. covered by correspondence only is listed in the evidence file and DESIGN.md. ")
 CLAIMED = {
+ "C11": dict(
+   text="Lean 4 theorems for every input list: each selecting verb, modelled as the state machine its Transform method implements, equals a stateless list specification (head = take / first k per group, tail -n +k, decimate, tac = reverse and tac;tac = id, group-by and group-like = first-appearance groups in input order), outputs are sublists / members of the input, |head k| + |tail +(k+1)| = number of keyed records, nothing = []. Machines tied to the real transformers in-process on seeded streams (model = implementation = spec on every case); filter/grep/sample/bootstrap/shuffle checked by partition / permutation / membership laws on the implementation.",
+   note="head -n -k, tail -n k, uniq -a, cat -n -g, skip-trivial-records and having-fields have machines tied by correspondence but no theorem yet; filter/grep depend on the DSL/regexp and are not modelled here.",
+   technique="Lean 4 proof (invariants over state machines by induction) + in-process differential correspondence", design="§4 C11"),
  "C01": dict(
    text="Lean 4 theorems for all byte strings / all record streams: TSV decode(encode s) = s and separator-freeness, TSV line round trip, CSV field, record and whole-stream round trip through a model of the forked encoding/csv reader state machine (any legal separator, with/without --quote-all, on an explicit representable-domain predicate), split/join law. Models tied to the real readers/writers in-process (identical bytes written, identical records read, on 22 format/option variants), Go encoding/csv + encoding/json as independent standard readers, arbitrary legal quoting styles read by Miller, mutated documents.",
    note="JSON, XTAB, PPRINT, NIDX, markdown, csvlite have no Lean model: their round trip is checked on the implementation only (spec predicate), YAML/DKVPX/DCF/recutils not covered. CSV stream theorem requires CR-free cells (CR not followed by LF is covered by correspondence only) and LF mode.",
